@@ -7550,7 +7550,7 @@ func extraC19StreamErrorExcuse(c *Ctx, r *Report) {
 		return ok
 	}
 	n := 0
-	for _, af := range attemptFuncs(c) {
+	for _, af := range attemptParts(c) {
 		eachInstr(af, func(in ssa.Instruction) {
 			ex, ok := in.(*ssa.Extract)
 			if !ok || ex.Type().String() != "error" {
@@ -11373,7 +11373,7 @@ func extraC19RecordBeforeExtract(c *Ctx, r *Report) {
 		return found
 	}
 	n := 0
-	for _, af := range attemptFuncs(c) {
+	for _, af := range attemptParts(c) {
 		var rs ssa.Instruction
 		var exs []ssa.Instruction
 		eachInstr(af, func(in ssa.Instruction) {
@@ -11391,13 +11391,16 @@ func extraC19RecordBeforeExtract(c *Ctx, r *Report) {
 			if sc.Name() == "RecordSuccess" && strings.Contains(fnPkgPath(sc), "/adapter/proxy") && sc.Signature.Params().Len() >= 2 {
 				rs = in
 			}
+			if _, isPart := attemptRoot[sc]; isPart {
+				return // the second half of a split attempt is examined on its own
+			}
 			if c.inRepo(sc) && reaches(sc, 3) {
 				exs = append(exs, in)
 			}
 		})
 		for _, ex := range exs {
 			n++
-			key := fname(af) + ":recorded-before-metrics-extraction"
+			key := fname(attemptKeyFn(af)) + ":recorded-before-metrics-extraction"
 			if rs != nil && instrDominates(rs, ex) {
 				r.OK("C19-R17", key, ex.Pos(), "RecordSuccess dominates the extractor call")
 			} else {
